@@ -39,6 +39,34 @@ def guard(seconds=20):
         signal.signal(signal.SIGALRM, old)
 
 
+class Watch:
+    """Cheap hang watchdog for loops of many short calls: one SIGALRM handler
+    for the whole loop, the timer re-armed every 256 ticks.  A call that does
+    not return trips the timer within `seconds` and gets Hang raised in it."""
+
+    def __init__(self, seconds=4):
+        self.seconds = seconds
+        self.n = 0
+        self.old = signal.signal(signal.SIGALRM, self._handler)
+        signal.setitimer(signal.ITIMER_REAL, seconds)
+
+    @staticmethod
+    def _handler(_sig, _frm):
+        raise Hang()
+
+    def tick(self):
+        self.n += 1
+        if not self.n & 255:
+            signal.setitimer(signal.ITIMER_REAL, self.seconds)
+
+    def rearm(self):
+        signal.setitimer(signal.ITIMER_REAL, self.seconds)
+
+    def close(self):
+        signal.setitimer(signal.ITIMER_REAL, 0)
+        signal.signal(signal.SIGALRM, self.old)
+
+
 class Ctx:
     """Collects what one task explored.  Picklable via .export()."""
 
@@ -51,6 +79,7 @@ class Ctx:
         self.nontrivial = set()
         self.outcomes = collections.Counter()
         self.counters = collections.Counter()
+        self.maxima = {}
         self.violations = []
         self.nviolations = 0
         self.fingerprints = set()
@@ -86,6 +115,10 @@ class Ctx:
     def count(self, name, n=1):
         self.counters[name] += n
 
+    def peak(self, name, value):
+        if value > self.maxima.get(name, value - 1):
+            self.maxima[name] = value
+
     def cap(self, text):
         if text not in self.caps:
             self.caps.append(text)
@@ -109,6 +142,7 @@ class Ctx:
             'states': array.array('q', self.states).tobytes(),
             'nontrivial': array.array('q', self.nontrivial).tobytes(),
             'outcomes': dict(self.outcomes), 'counters': dict(self.counters),
+            'maxima': dict(self.maxima),
             'violations': self.violations, 'nviolations': self.nviolations,
             'samples': self.samples, 'caps': self.caps,
         }
@@ -120,6 +154,7 @@ class Merged:
         self.state_chunks, self.nontrivial_chunks = [], []
         self.outcomes = collections.Counter()
         self.counters = collections.Counter()
+        self.maxima = {}
         self.violations, self.nviolations = [], 0
         self.samples, self.caps = [], []
         self.tasks = 0
@@ -134,6 +169,9 @@ class Merged:
         self.nontrivial_chunks.append(exp['nontrivial'])
         self.outcomes.update(exp['outcomes'])
         self.counters.update(exp['counters'])
+        for k, v in exp['maxima'].items():
+            if v > self.maxima.get(k, v - 1):
+                self.maxima[k] = v
         self.violations.extend(exp['violations'])
         self.nviolations += exp['nviolations']
         if exp['samples']:
@@ -205,6 +243,7 @@ def _run_one(indexed_task):
     idx, task = indexed_task
     mod, tier, seed = _WORK['mod'], _WORK['tier'], _WORK['seed']
     ctx = Ctx(mod.ID, tier, seed)
+    t0 = time.time()
     try:
         mod.run(task, ctx)
         err = None
@@ -212,6 +251,8 @@ def _run_one(indexed_task):
         err = 'task {!r}: {}'.format(task, traceback.format_exc())
     out = ctx.export()
     out['index'] = idx
+    out['task'] = repr(task)[:80]
+    out['wall'] = time.time() - t0
     out['error'] = err
     return out
 
@@ -232,6 +273,8 @@ def run_tasks(mod, tasks, tier, seed, workers=None):
                 results.append(res)
     results.sort(key=lambda r: r['index'])
     merged = Merged()
+    merged.slowest = sorted(((round(r['wall'], 2), r['task'])
+                             for r in results), reverse=True)[:5]
     for res in results:
         merged.add(res)
         if res['error']:
